@@ -1,5 +1,5 @@
 \* as built (find_class(copy=False) in flatten): TLC is EXPECTED to violate ResultIsFunctionOfClass
-CONSTANTS CopyOnLookup = FALSE SympyCopies = TRUE LibIds = {1,2,3,4,5,6,7,8,9} MaxReq = 3
+CONSTANTS CopyOnLookup = FALSE SympyCopies = TRUE LibIds = {1,2,3,4,5,6,7,8,9,10,11} MaxReq = 3
           Backends = {"flatten","casadi","sympy","xml"}
 INIT Init
 NEXT Next
